@@ -171,6 +171,32 @@ def keys_part(rep):
                 rep.inconclusive.append({"group": "key loops", "id": oid, "detail": detail})
             if text and len(rep.samples) < 14:
                 rep.samples.append({"group": "key loops", "obligation": oid, "verdict": verdict, "smtlib": text[:1500]})
+    # validation of the translation (and of the environment it was given: which names hold which keys when the loop runs):
+    # the real functions are called on probe keys and must behave as the decided formula says - an unknown key warns, a
+    # documented one does not
+    for fn, doc, label in ((check_surface_dict_keys, surf_doc, "surface dictionary"), (gu.generate_mesh, mesh_doc, "mesh dictionary")):
+        probes = ["zz", "spn", doc[0] + "_x", doc[-1] + "2"] + [doc[0], doc[len(doc) // 2]]
+        for key in probes:
+            rep.counts["obligations"] += 1
+            with warnings.catch_warnings(record=True) as w:
+                warnings.simplefilter("always")
+                try:
+                    if fn is check_surface_dict_keys:
+                        fn({key: 1})
+                    else:
+                        base = {"num_y": 5, "num_x": 2, "wing_type": "rect", "symmetry": True}
+                        base[key] = base.get(key, 1.0)
+                        fn(base)
+                except Exception:
+                    pass
+            named = sum(1 for x in w if issubclass(x.category, RuntimeWarning) and ("`%s`" % key in str(x.message) or "'%s'" % key in str(x.message) or key in str(x.message).split()))
+            isdoc = key in doc
+            if (named == 0 and not isdoc) or (named > 0 and isdoc):
+                rep.counts["candidates"] += 1
+                rep.violation("%s keys: the real function agrees with the decided key-loop formula on probe keys" % label,
+                              "key %r: %d RuntimeWarning(s) naming it (documented key: %s)" % (key, named, isdoc), {"key": key, "label": label, "keys": True, "probe": True})
+            else:
+                rep.counts["discharged"] += 1
     rep.groups.append({"case": "key-validation loops (AST -> SMT strings)", "documented_surface_keys": len(surf_doc), "documented_mesh_keys": len(mesh_doc)})
     rep.log("key loops translated and checked (%d surface keys, %d mesh keys documented)" % (len(surf_doc), len(mesh_doc)))
 
@@ -295,6 +321,18 @@ def readonly_part(rep, tier):
     by_name = {}
     for case in cases:
         try:
+            # the surface dictionaries the component is handed (the same objects every time the factory is called): their key
+            # sets before set-up and after the runs must be the same - the library does not write into the user's dictionary
+            dicts0 = []
+            try:
+                c0 = case.factory(dict(case.cfg))
+                for v0 in list(c0.options._dict.values()):
+                    val0 = v0.get("val") if isinstance(v0, dict) else None
+                    for d0 in ([val0] if isinstance(val0, dict) else (val0 if isinstance(val0, list) else [])):
+                        if isinstance(d0, dict):
+                            dicts0.append((d0, set(d0.keys())))
+            except Exception:
+                dicts0 = []
             r = case.build()
             frozen = []
             for v in list(r.comp.options._dict.values()):
@@ -316,6 +354,12 @@ def readonly_part(rep, tier):
             for a in frozen:
                 a.flags.writeable = True
             dims_of_case(rep, case, r, ps, dim_hits)
+            for d0, k0 in dicts0:
+                added = sorted(str(k_) for k_ in set(d0.keys()) - k0)
+                if added:
+                    bad.append((case.name, "set-up / evaluation added the key(s) %s to the user's surface dictionary" % added))
+                    for k_ in added:
+                        d0.pop(k_, None)
             for vn, md in r.comp._var_rel2meta.items():
                 base = vn
                 for s_ in getattr(r.comp.options, "_dict", {}).get("surfaces", {}).get("val", None) or []:
